@@ -637,6 +637,8 @@ pub struct State {
     /// raw content -> normalized content produced by the implementation
     /// (every route must agree: the commutation statement of C15)
     norm_map: BTreeMap<Vec<u8>, Vec<u8>>,
+    /// the next `settle` logs locally (see there)
+    settle_local: bool,
 }
 
 fn mdl_of(h: &H) -> Mdl {
@@ -659,6 +661,7 @@ pub fn execute(ops: &[Op], verbose: bool) -> Outcome {
         slots: (0..NSLOTS).map(|i| H::new_of(slot_type(i))).collect(),
         mdl: Vec::new(),
         norm_map: BTreeMap::new(),
+        settle_local: false,
     };
     st.mdl = st.slots.iter().map(mdl_of).collect();
     for (i, op) in ops.iter().enumerate() {
@@ -694,7 +697,9 @@ fn settle(cx: &mut Ctx, st: &mut State, slot: usize, opname: &str) -> bool {
             format!("{}:{}", opname, TYPE_NAMES[t]),
             format!("{} produced an invalid {} object: {} [{}]", opname, TYPE_NAMES[t], p, abridge(&h.debug())),
         );
-        cx.ev(true, format_args!("s{} INVALID after {}", slot, opname));
+        // (local when the text parsed has an over-long raw field: a strict-parser
+        // build legitimately never gets this far)
+        cx.ev(!st.settle_local, format_args!("s{} INVALID after {}", slot, opname));
         // never use a corrupted object again
         st.slots[slot] = H::new_of(t);
         st.mdl[slot] = mdl_of(&st.slots[slot]);
@@ -891,7 +896,9 @@ fn parse_step(cx: &mut Ctx, st: &mut State, d: usize, text: &[u8], via: u8) {
             let before = st.mdl[d].c.clone();
             let saved = (st.slots[d], st.mdl[d].clone());
             st.slots[d] = h;
+            st.settle_local = overlong;
             let ok = settle_sig(cx, st, d, "parse", sigclass);
+            st.settle_local = false;
             if ok && !overlong {
                 st.mdl[d] = mdl_of(&h);
                 dirty_probe(cx, &before, &st.mdl[d].c);
